@@ -10,11 +10,11 @@ import (
 	"fmt"
 	"io"
 	"net/http"
-	"net/http/httptest"
 	"net/url"
 	"reflect"
 	"runtime"
 	"time"
+	"verifharness/internal/netx"
 
 	"github.com/ipfs/go-cid"
 	"github.com/ipni/go-libipni/announce/httpsender"
@@ -292,7 +292,7 @@ func Run(args []string) *rep.Report {
 	// HTTP receiver for the sender clause
 	var lastBody []byte
 	var lastCT string
-	srv := httptest.NewServer(http.HandlerFunc(func(w http.ResponseWriter, req *http.Request) {
+	srv := netx.NewServer(http.HandlerFunc(func(w http.ResponseWriter, req *http.Request) {
 		lastBody, _ = io.ReadAll(req.Body)
 		lastCT = req.Header.Get("Content-Type")
 		w.WriteHeader(http.StatusNoContent)
